@@ -280,9 +280,13 @@ def main():
             own, isv, ol = seq_state(s, elems)
             k = canon.setdefault(own, len(canon))
             els = [rows_of(x) for x in elems]          # copied out immediately
+            # dtype kind of the arrays the object hands out (b / i / f; '?' without elements): what NumPy's casting
+            # rule for in-place operators depends on
+            kd = elems[0].dtype.kind if elems else '?'
+            kd = 'i' if kd == 'u' else kd if kd in 'bif' else '?'
             del elems
             parts.append(f'{i}@{k}=' + ('-' if not els else '/'.join(enc_elem(e) for e in els)))
-            lay.append(f'{i}={k},{isv}:' + ','.join(f'{o}.{l}' for o, l in ol))
+            lay.append(f'{i}={k},{isv}{kd}:' + ','.join(f'{o}.{l}' for o, l in ol))
         return '&'.join(parts), '&'.join(lay)
 
     for line in sys.stdin:
@@ -450,6 +454,10 @@ def main():
                 res = 'err:Value'
             except StopIteration:
                 res = 'err:StopIteration'
+            except TypeError:
+                # by class only: numpy's UFuncTypeError (an in-place operator whose result dtype cannot be cast
+                # 'same_kind' to the buffer's dtype) is a TypeError
+                res = 'err:Type'
             except Exception as e:  # anything else is reported by name
                 res = 'err:Other:' + type(e).__name__
             ob, lay = observe(seqs)
